@@ -23,10 +23,10 @@ let cmd_kind = function
        | Some k -> sx_of_int (int_of_kind k) | None -> A "-1")
   | _ -> failwith "kind"
 
-(* (rank1 nn nf ne dists data) -> (1 rows) | (0) *)
+(* (nn nf ne dists data) -> (1 rows) | (0) *)
 let cmd_nn = function
-  | L [r1; nn; nf; ne; t; data] ->
-      (match c12_nn (bool_of_sx r1) (z_of_sx nn) (z_of_sx nf) (z_of_sx ne) (dists_of_sx t) (rows_of_sx data) with
+  | L [nn; nf; ne; t; data] ->
+      (match c12_nn (z_of_sx nn) (z_of_sx nf) (z_of_sx ne) (dists_of_sx t) (rows_of_sx data) with
        | Some r -> L [A "1"; sx_of_rows r] | None -> L [A "0"])
   | _ -> failwith "nn"
 
